@@ -147,6 +147,38 @@ def run(ctx):
             prof = canon.build_profile(s2)
             expect(ctx, {"what": f"{rule}: ballot without scores at position {pos}", "rule": rule, "profile": s2},
                    lambda rule=rule, prof=prof: getattr(el, rule)(prof, m=1, tiebreak="random"), TypeError, "missing_scores")
+        # ---- 4b. ONE profile object through rules of both kinds: rules that have no objection to it see it first (their
+        # answers are not judged here), then every rule that must refuse it - an acceptance by one rule must not carry over
+        # to another rule (validation results remembered per profile object)
+        def shared(what, s2, must_reject, exc, row):
+            prof1 = canon.build_profile(s2)
+            fns = {}
+            for rule in rules.RANKING_RULES:
+                c1 = dict(RANK_CFG.get(rule, {"m": 1}), rule=rule)
+                c1.setdefault("tiebreak", "random")
+                if rule in ("DominatingSets", "CondoBorda", "RandomDictator", "BoostedRandomDictator"):
+                    c1.pop("tiebreak", None)
+                fns[rule] = rules.constructor(c1, prof1)
+            for rule in rules.SCORE_RULES:
+                fns[rule] = (lambda rule=rule: getattr(el, rule)(prof1, m=1, tiebreak="random"))
+            order = [r for r in fns if r not in must_reject]
+            rnd.shuffle(order)
+            for rule in order[:rnd.randint(1, 4)]:
+                observe(fns[rule])
+                ctx.count("shared_object_warm_calls")
+            for rule in must_reject:
+                expect(ctx, {"what": f"{rule}: {what} (profile object already seen by other rules)", "rule": rule, "profile": s2},
+                       fns[rule], exc, row)
+
+        both = canon.spec_profile(cs, [B(rnd.sample(cs, n), i + 1, {cs[i % n]: 1}) for i in range(n)])
+        shared("tied position", with_bad_ballot(both, B([tuple(cs[:2])] + ([cs[2]] if n > 2 else []), 1, {cs[0]: 1}), pos),
+               list(rules.STV_FAMILY), TypeError, "tied_stv")
+        shared("ballot without ranking", with_bad_ballot(both, B(None, 1, {cs[0]: 1}), pos), list(rules.RANKING_RULES), TypeError,
+               "missing_ranking")
+        shared("ballot without scores", with_bad_ballot(both, B(rnd.sample(cs, n), 1), pos), list(rules.SCORE_RULES), TypeError,
+               "missing_scores")
+        shared("non-integer weight", with_bad_ballot(both, B(rnd.sample(cs, n), F(3, 2), {cs[0]: 1}), pos), ["PluralityVeto"], TypeError,
+               "integer_weights")
         # ---- 5. seat count outside 1..n -> ValueError ; m = n and m = 1 accepted
         for rule in ["STV", "SequentialRCV", "Plurality", "SNTV", "Borda", "CondoBorda", "RandomDictator", "BoostedRandomDictator",
                      "PluralityVeto"]:
